@@ -70,6 +70,10 @@ func c08Gen(t *rapid.T) c08Case {
 		c.Blocks = vGenPartition(t, c.Npre, c.Nsamp, total)
 	}
 	c.Hist = []vHistOp{{At: 0, Kind: "trigger", Chans: []int{0}, Trig: tr}}
+	if len(c.Blocks) > 1 && rapid.IntRange(0, 2).Draw(t, "reports") == 0 {
+		// a client looks at the state between blocks (every request ends with such a report)
+		c.Reports = rapid.SliceOfNDistinct(rapid.IntRange(1, len(c.Blocks)-1), 1, minInt(4, len(c.Blocks)-1), rapid.ID[int]).Draw(t, "reportat")
+	}
 	c.Pulses = vGenPulses(t, 1, c.Nsamp, c.Blocks, 8)
 	// edges on and around the first searchable sample, and pairs closer together than a record
 	sign := 1
@@ -164,6 +168,7 @@ func c08Run(cc c08Case) (v vVerdict) {
 	a := c
 	a.Blocks = []int{total}
 	a.JitterNs = nil
+	a.Reports = nil
 	recA, fail := c08Collect(&a)
 	if fail != nil {
 		fail.Msg = "one-block run: " + fail.Msg
@@ -271,6 +276,9 @@ func c08Run(cc c08Case) (v vVerdict) {
 			return *fail
 		}
 		v.Classes = append(v.Classes, "frame-gaps-between-blocks")
+	}
+	if len(c.Reports) > 0 {
+		v.Classes = append(v.Classes, "state-reports-between-blocks")
 	}
 	near := false
 	pos := 0
